@@ -60,7 +60,7 @@ off64_t _GD_AsciiSeek(struct gd_raw_file_* file, off64_t count,
 
   dtrace("%p, %" PRId64 ", <unused>, 0x%X", file, (int64_t)count, mode);
 
-  if (count < file->pos) {
+  if (count < file->pos || file->pos < 0) {
     rewind((FILE *)file->edata);
     file->pos = 0;
   }
